@@ -20,6 +20,9 @@ def run(ctx):
     ]
     plan.append({"scens": wcat.special_dep_scenarios(), "policies": ("FIFO", "LIFO", "JOBS"), "bound": 1})
     plan.append({"scens": wcat.wait_scenarios(), "policies": ("FIFO", "JOBS"), "bound": 1})
+    # a job that joins dependencies of which some are already over; both iteration orders of the dependency sets ("+rev")
+    plan.append({"scens": wcat.latejoin_scenarios(), "policies": wcat.POL_ORDER[:4] if q else wcat.POL_ORDER, "bound": 1})
+    plan.append({"scens": wcat.dag_scenarios(3, rotations=(0, 5), all_orders=False, min_n=3), "policies": ("FIFO+rev", "JOBS+rev"), "bound": 1})
     # an upstream job process dies abruptly (no marker) at every point, also when it had been taken back by a second scheduler
     for pol in ("FIFO", "LIFO", "JOBS", "Q:1,2,job"):
         plan.append({"scens": wcat.jobkill_scenarios(), "policies": (pol,), "kills": {"restart_bound": 0}})
